@@ -242,3 +242,16 @@ PROPS["C12"] = {
     "level_text": "Machine-checked Lean 4 theorems: ask_announce_arm (before a wait: policy question, ScheduleChange carrying exactly that timing, wait_for(min) iff a minimum wait is given and with exactly that duration, wait_until(time) with exactly that bound; the wait needs exactly the timers armed here), outerWait_timers_all_fired (no_early_check: the wait ends on timers only when every armed timer has fired, for every order and interleaving), outerWait_all_fired (either order suffices), outerWait_subset_waits (a proper subset never ends the wait), outerWait_ctl_first / outerWait_ctl_mem (a request ends it at once; nothing else does), scheduled_check_only_after_timers (in run, the scheduled-options policy question is asked exactly on the timers outcome); rebootWait_start (first question, 30-minute timer of exactly 1800 s, ping schedule by the same rule), rebootLoop_partial_fire / rebootLoop_last_fire_pings (ping_same_rule: the ping goes out when the last outstanding timer fires, then the timing is asked and armed again), rebootLoop_t30 (the 30-minute timer re-asks with the wait's options and is re-armed for exactly 30 minutes on refusal), rebootLoop_scheduled_ctl (a scheduled request asks nothing). Tied to state_machine.rs by the per-unit differential run with a blocking timer.",
     "level_note": "Trusted: Lean kernel; the hand-written state-machine model; harness (blocking Timer, manual executor) and diff.",
 }
+
+PROPS["C11"] = {
+    "lean_modules": ["Omaha.Props.C11"],
+    "streams": sm_stream([r"R ", [r"P allowed", ["opts=", "->", "ok", "toosoon", "throttled", "denied"]], r"P rebootallowed", r"I reboot",
+                          [r"T fire", []], [r"H uc", []], [r"Z ", []]]) + [
+        {"name": "ctl", "file": "ctl", "args": ["ctl"]}],
+    "rule": SM_RULE + "; control requests (on-demand or scheduled options, each from a fresh clone of the handle) arrive while the machine waits for its timers (before any fires, or after a proper subset has fired), one or two arrive while the first update-check exchange is in flight, and any number arrive between the steps of the reboot wait, interleaved with the 30-minute timer and the ping timers; the executor polls the machine only when woken, so a request that would not wake it shows up as a stall; replies are compared per request. Projection: every reply, the options of the check-allowed and reboot-allowed questions, reboot calls, timer firings, the existence of the check, how the unit ended. Stream ctl (implementation only): after the state machine is dropped a request fails with a gone error at once; with every handle dropped the machine keeps checking on its timers",
+    "trusted_extra": SM_TRUSTED + ["futures-channel mpsc and oneshot are not modelled beyond 'a request is taken at the select points'; the both-ready branch order of select! is not exercised (requests are injected at quiescent points)",
+                                   "channel closure (gone error, dropped handles) is checked on the implementation by stream ctl, not modelled"],
+    "assumptions": ["the state machine is !Send (Rc, LocalBoxFuture): all interleavings are those of a single-threaded executor"],
+    "level_text": "Machine-checked Lean 4 theorems, for every schedule: decideAndCheck_replies (reply_exactly_once / reply_truthful for an iteration of run: the request that ended the wait gets exactly one reply, Started iff the policy allowed the check and Throttled iff it refused; each request during the check exactly one AlreadyRunning; each request taken in the reboot wait exactly one AlreadyRunning; no other replies), rebootLoop_replies / rebootWait_replies / waitForReboot_replies / afterCheck_replies (by induction over the reboot-wait script), addsT_startUpdateCheck (a check by itself replies to nobody), outerWait_ctl_first (C12: a request wakes the waiting machine with no timer firing), upgradeOpts_spec and rebootLoop_ondemand_ctl + rebootLoop_ondemand_sticky + rebootLoop_scheduled_ctl (an on-demand request — during the check or the wait — makes this and every later reboot question on-demand and reboots iff the policy agrees; a scheduled one asks nothing). Tied to state_machine.rs by the per-unit differential run with requests injected at every kind of blocking point, and by the ctl stream for channel closure.",
+    "level_note": "Trusted: Lean kernel; the hand-written state-machine model; harness (manual executor, handle clones) and diff. Partial: the gone / dropped-handles clauses are tested on the implementation, not proved.",
+}
